@@ -145,6 +145,7 @@ type waiter struct{ signaled atomic.Bool }
 
 func NewCond(l Locker) *Cond { return &Cond{L: l} }
 
+//go:norace
 func (c *Cond) realCond() *sync.Cond {
 	c.mu.Lock()
 	defer c.mu.Unlock()
@@ -154,6 +155,7 @@ func (c *Cond) realCond() *sync.Cond {
 	return c.real
 }
 
+//go:norace
 func (c *Cond) Wait() {
 	if s := sched.Current(); s != nil {
 		w := &waiter{}
@@ -171,6 +173,7 @@ func (c *Cond) Wait() {
 	c.realCond().Wait()
 }
 
+//go:norace
 func (c *Cond) Signal() {
 	sched.RaceOff()
 	c.mu.Lock()
@@ -189,6 +192,7 @@ func (c *Cond) Signal() {
 	}
 }
 
+//go:norace
 func (c *Cond) Broadcast() {
 	sched.RaceOff()
 	c.mu.Lock()
